@@ -75,6 +75,7 @@ type Scn struct {
 	Procs   int            `json:"procs,omitempty"`
 	NumByte int            `json:"num_byte,omitempty"` // Single
 	Group   string         `json:"group,omitempty"`    // parent-side grouping key
+	Chain   string         `json:"chain,omitempty"`    // scenarios sharing a chain run in ONE child process, in order (history-dependent state)
 	Note    string         `json:"note,omitempty"`
 }
 
@@ -369,6 +370,7 @@ type runOpts struct {
 	Parallel int           // children at once
 	PerScn   time.Duration // generous expected upper bound for one scenario (watchdog = 50x + 60s per batch element)
 	Label    string
+	Shuffle  uint64 // != 0: seeded shuffle of the execution order (chains stay together, in order)
 }
 
 // runScenarios executes all scenarios in child processes and returns results by id.
@@ -385,9 +387,32 @@ func runScenarios(scns []Scn, o runOpts) map[int]*Res {
 	if nb > len(scns) {
 		nb = len(scns)
 	}
+	// units: a chain (kept together, in order) or a single scenario
+	var units [][]Scn
+	chainIdx := map[string]int{}
+	for _, s := range scns {
+		if s.Chain != "" {
+			if k, ok := chainIdx[s.Chain]; ok {
+				units[k] = append(units[k], s)
+				continue
+			}
+			chainIdx[s.Chain] = len(units)
+		}
+		units = append(units, []Scn{s})
+	}
+	if o.Shuffle != 0 {
+		r := gen.NewRng(o.Shuffle)
+		for i := len(units) - 1; i > 0; i-- {
+			j := r.Intn(i + 1)
+			units[i], units[j] = units[j], units[i]
+		}
+	}
+	if nb > len(units) {
+		nb = len(units)
+	}
 	batches := make([][]Scn, nb)
-	for i, s := range scns {
-		batches[i%nb] = append(batches[i%nb], s)
+	for i, u := range units {
+		batches[i%nb] = append(batches[i%nb], u...)
 	}
 	var wg sync.WaitGroup
 	for bi := range batches {
